@@ -17,6 +17,7 @@ type SolverCfg struct {
 	OutDir     string
 	Jobs       int
 	TwoSolvers bool
+	SkipRetry  func(name string) bool
 }
 
 type solverRun struct {
@@ -238,6 +239,43 @@ func dischargeAll(obls []*Obligation, covers []*Obligation, cfg SolverCfg) {
 		}()
 	}
 	wg.Wait()
+	// second chance for obligations that only timed out (no solver said sat): load on the machine must not
+	// turn into alarms. Re-run them with three times the budget and little parallelism.
+	var again []*Obligation
+	for _, o := range obls {
+		if o.Status == "unknown" || (o.Status == "failed" && o.Solver == "z3-new[cex-mode]") {
+			if cfg.SkipRetry != nil && cfg.SkipRetry(o.Name) {
+				continue
+			}
+			again = append(again, o)
+		}
+	}
+	if len(again) > 0 && len(again) <= 60 {
+		failMu.Lock()
+		failCount = map[string]int{}
+		failMu.Unlock()
+		cfg2 := cfg
+		cfg2.TimeoutS = cfg.TimeoutS * 3
+		ch2 := make(chan *Obligation, len(again))
+		for _, o := range again {
+			ch2 <- o
+		}
+		close(ch2)
+		var wg2 sync.WaitGroup
+		for i := 0; i < 4; i++ {
+			wg2.Add(1)
+			go func() {
+				defer wg2.Done()
+				for o := range ch2 {
+					prev := o.Output
+					o.Status, o.Solver, o.Model = "", "", ""
+					discharge(o, cfg2)
+					o.Output = prev + "-- retry with 3x budget --\n" + o.Output
+				}
+			}()
+		}
+		wg2.Wait()
+	}
 }
 
 // quickSat asks z3 whether cond is satisfiable together with the facts so far (used to stop unrolling).
